@@ -8,7 +8,11 @@ patch=seeded/$id/patch.diff
 git -C /repo diff --quiet || { echo "/repo has uncommitted changes"; exit 2; }
 props="$@"
 [ -z "$props" ] && props=$(python3 -c "import json;print(json.load(open('seeded/$id/meta.json'))['property'])")
-git -C /repo apply $PWD/$patch || exit 2
+if ! git -C /repo apply $PWD/$patch 2>/dev/null; then
+  # the patch was made against an older HEAD (hook lines moved): apply with fuzz and re-base it
+  (cd /repo && patch -p1 --fuzz=3 --no-backup-if-mismatch < /verif/$patch) || { git -C /repo checkout -- .; echo "patch does not apply"; exit 2; }
+  git -C /repo diff -- src > $PWD/$patch
+fi
 out=seeded/$id/results.txt
 for p in $props; do
   echo "== ./check $p quick" | tee -a $out
